@@ -152,16 +152,23 @@ def main():
             status['functions'][s.lean] = dict(python_callable_info(s), tie='translated')
             if golden.get(s.lean, {}).get('text') != text:
                 status['functions'][s.lean]['differs_from_golden'] = s.lean in golden
+            status['functions'][s.lean]['abscalls'] = s._abscalls
+            if s.lean in golden and golden[s.lean].get('abscalls', s._abscalls) != s._abscalls:
+                # the arguments handed to a call that the model abstracts into a parameter changed:
+                # the generated definition cannot see that, so the tie is degraded and says so
+                status['functions'][s.lean]['tie'] = 'abstract-call-changed'
+                status['functions'][s.lean]['reason'] = 'abstracted calls were %s, now %s' % (golden[s.lean].get('abscalls'), s._abscalls)
         except Exception as e:  # Untranslatable or a Python-side error: fall back to golden
             g = golden.get(s.lean)
             if g is None:
                 raise
             text = g['text']
             s._selfattrs, s._absparams, s._nret, s._notes = g['selfattrs'], g['absparams'], g['nret'], g['notes']
+            s._abscalls = g.get('abscalls', [])
             status['functions'][s.lean] = dict(python_callable_info(s), tie='correspondence-only',
                                                reason='%s: %s' % (type(e).__name__, e))
         if update:
-            golden[s.lean] = dict(text=text, selfattrs=s._selfattrs, absparams=s._absparams, nret=s._nret, notes=s._notes)
+            golden[s.lean] = dict(text=text, selfattrs=s._selfattrs, absparams=s._absparams, nret=s._nret, notes=s._notes, abscalls=s._abscalls)
         defs.append(text)
     os.makedirs(GEN, exist_ok=True)
     head = ('import IxpeVerif.Num\n/-! Generated by translator/gen.py from the /repo working tree — do not edit.\n'
